@@ -261,10 +261,23 @@ func main() {
 			continue
 		}
 		seen[d.name] = true
-		fmt.Fprintf(&b, "def %s : %s := %s\n", d.name, d.typ, d.val)
+		fmt.Fprintf(&b, "@[reducible, simp] def %s : %s := %s\n", d.name, d.typ, d.val)
 	}
 	b.WriteString("\nend Tdx.Gen\n")
 	writeIfChanged(filepath.Join(*out, "Consts.lean"), b.Bytes())
+	// the same names as a simp set for proofs (TdxProofs may import Lean's tactic framework; the model may not)
+	var a bytes.Buffer
+	a.WriteString("/- GENERATED by /verif/extract. Do not edit. -/\nimport TdxProofs.GenAttr\nimport TdxModel.Generated.Consts\n\nattribute [gen_const]\n")
+	for n := range seen {
+		_ = n
+	}
+	for _, d := range defs {
+		if seen[d.name] {
+			fmt.Fprintf(&a, "  Tdx.Gen.%s\n", d.name)
+			seen[d.name] = false
+		}
+	}
+	writeIfChanged(filepath.Join(*out, "..", "..", "TdxProofs", "Generated", "ConstsSimp.lean"), a.Bytes())
 
 	sites := extractSites(pkgs)
 	writeIfChanged(filepath.Join(*out, "Sites.lean"), sites)
